@@ -125,6 +125,12 @@ def val : List Nat → List Nat → Nat
   | n :: ns, p :: ps => p + n * val ns ps
   | _, _ => 0
 
+/-- `p` is an index vector for the sizes `ns`: same length and `pᵢ < nᵢ` -/
+def inRange : List Nat → List Nat → Bool
+  | [], [] => true
+  | n :: ns, p :: ps => decide (p < n) && inRange ns ps
+  | _, _ => false
+
 /-- every index combination, in the order of the iterator: the `k`-th one is the digit vector of `k`
 (the first axis runs fastest) -/
 def combos (ns : List Nat) : List (List Nat) :=
